@@ -43,7 +43,7 @@ def tree_hash(repo: Path = REPO) -> str:
     return h.hexdigest()[:20]
 
 
-def _prune(keep: Path, prefix: str, maxn: int = 2):
+def _prune(keep: Path, prefix: str, maxn: int = 4):
     try:
         ds = sorted((d for d in CACHE.iterdir() if d.is_dir() and d.name.startswith(prefix) and d != keep),
                     key=lambda d: d.stat().st_mtime, reverse=True)
